@@ -15,7 +15,8 @@ RULE = (
     "both families for host bits; a second address equal above bit B with another suffix. Oracles: "
     "membership in every preserved prefix (default list written out in the harness) is kept both ways; low B "
     "bits unchanged; image>>B independent of the suffix (same and fresh anonymizer). edges: first/last address of "
-    "each of the 7 default prefixes x salts (exhaustive over that grid). Non-trivial = image != input and "
+    "each of the 7 default prefixes x salts (exhaustive over that grid). bulk: one anonymizer first processes 24000 (quick) / "
+    "60000 (thorough) spread addresses, then addresses next to its preserved prefixes are checked as above. Non-trivial = image != input and "
     "(address within 4 bits of a preserved-prefix boundary, or 0<B<32 with differing suffixes); distinct by case."
 )
 ASSUMPTIONS = [
@@ -100,7 +101,35 @@ def check_edges(case, ev):
     return None
 
 
-REPLAY = {"addr": check_addr, "edges": check_edges}
+def check_bulk(case, ev):
+    """case: {cfg, n, start, stride, probes}: after one anonymizer has processed n spread IPv4
+    addresses, preserved prefixes and host bits must still be honoured (long runs / big inputs)."""
+    cfg, n = case["cfg"], case["n"]
+    an, exc = guarded(G.mk4, cfg)
+    if exc is not None:
+        return core.exc_finding(exc, case, "ctor/")
+    mult = case["stride"] | 1
+    for i in range(n):
+        _, exc = guarded(an.anonymize, (case["start"] + i * mult) & G.M32)
+        if exc is not None:
+            return core.exc_finding(exc, case, "anonymize/")
+    ev.bulk(1, 1, sample={k: case[k] for k in ("cfg", "n")})
+    ev.notes["addresses_loaded"] = ev.notes.get("addresses_loaded", 0) + n
+    B = cfg["B4"]
+    for x in case["probes"]:
+        y, exc = guarded(an.anonymize, x)
+        if exc is not None:
+            return core.exc_finding(exc, case, "anonymize/")
+        for p in G.effective_prefixes(cfg):
+            v, l = G.parse_cidr(p)
+            if (G.net_of(x, l) == v) != (G.net_of(y, l) == v):
+                return Finding("bulk/preserved-prefix-not-honoured-after-long-run", "cfg=%r: after %d addresses %s -> %s changes membership in %s" % (cfg, n, G.v4_canon(x), G.v4_canon(y), p), case)
+        if (x ^ y) & ((1 << B) - 1):
+            return Finding("bulk/host-bits-changed-after-long-run", "cfg=%r: %d -> %d" % (cfg, x, y), case)
+    return None
+
+
+REPLAY = {"addr": check_addr, "edges": check_edges, "bulk": check_bulk}
 
 
 @st.composite
@@ -116,6 +145,20 @@ def _case(draw):
         B = cfg["B6"]
     x2 = ((x >> B) << B) | (draw(st.integers(0, (1 << B) - 1)) if B else 0)
     return {"fam": fam, "cfg": cfg, "x": x, "x2": x2}
+
+
+@st.composite
+def _bulk_case(draw, n):
+    cfg = draw(G.config())
+    cfg["B4"] = draw(st.sampled_from([0, 0, 4]))
+    pf = G.effective_prefixes(cfg) or ["0.0.0.0/0"]
+    return {"cfg": cfg, "n": n, "start": draw(G.u32), "stride": draw(st.integers(1 << 18, G.M32)), "probes": [draw(G.addr_near(pf)) for _ in range(40)]}
+
+
+def t_bulk(shard, nshards, seed, ev, known, n=1, size=24000):
+    # the first examples Hypothesis generates are the simplest ones (empty lists, zero values): skip them
+    cases = core.collect_cases(_bulk_case(size), n + 3, seed)[3:]
+    return core.enum_drive(cases, check_bulk, ev, known, "bulk")
 
 
 def t_addr(shard, nshards, seed, ev, known, n=1000):
@@ -138,4 +181,5 @@ def plan(tier):
     return [
         Task("addr", t_addr, shards=4 if q else 16, n=2000 if q else 50000),
         Task("edges", t_edges, shards=2 if q else 8, nsalts=40 if q else 400),
+        Task("bulk", t_bulk, shards=3 if q else 8, n=1 if q else 4, size=24000 if q else 60000),
     ]
